@@ -1,12 +1,541 @@
-//! C10: not yet implemented
+//! C10: FIIN tables (`FileInfo::new` / `write_to_buffer` / `from_existing`, SHA-1 digests) and
+//! patch lists (`PatchList::to_string` / `from_string`).  Case grammar: see `Driver/C10.lean`.
 #![allow(unused)]
 use crate::util::*;
+use physis::fiin::{FIINEntry, FileInfo};
+use physis::patchlist::{PatchEntry, PatchList, PatchListType};
 use std::io::Write;
 
-pub fn generate(thorough: bool, seed: u64, out: &mut dyn Write) {}
+// ------------------------------------------------------------------------------------------
+// generator
+// ------------------------------------------------------------------------------------------
+
+/// message lengths around every SHA-1 padding boundary of block `k`
+fn boundary_lengths(k: usize) -> Vec<usize> {
+    [0usize, 1, 54, 55, 56, 57, 62, 63, 64, 65]
+        .iter()
+        .map(|r| k * 64 + r)
+        .collect()
+}
+
+fn content(rng: &mut Rng, n: usize) -> Vec<u8> {
+    match rng.below(8) {
+        0 => vec![0u8; n],
+        1 => vec![0xffu8; n],
+        2 => vec![0x80u8; n],
+        _ => rng.bytes(n),
+    }
+}
+
+/// a valid UTF-8 string of at most `max` bytes without the listed ASCII bytes
+fn text(rng: &mut Rng, max: usize, forbid: &[u8], allow_nul_inside: bool) -> Vec<u8> {
+    let target = match rng.below(10) {
+        0 => 0,
+        1 => max,
+        2 => max.saturating_sub(1),
+        _ => rng.range(1, max.max(1) as u64) as usize,
+    }
+    .min(max);
+    let mut v: Vec<u8> = Vec::new();
+    while v.len() < target {
+        let ch: Vec<u8> = match rng.below(12) {
+            0 => "é".as_bytes().to_vec(),
+            1 => "ファ".as_bytes().to_vec(),
+            2 => "𝄞".as_bytes().to_vec(),
+            3 => vec![b' '],
+            4 => vec![*rng.pick(b"._-:/?&=%+~#@!$'()*;[]")],
+            5 if allow_nul_inside && !v.is_empty() => vec![0],
+            _ => vec![*rng.pick(b"abcdefghijklmnopqrstuvwxyzABCDEFGHIJKLMNOPQRSTUVWXYZ0123456789")],
+        };
+        if ch.iter().any(|b| forbid.contains(b)) || v.len() + ch.len() > target {
+            if v.len() + 1 <= target {
+                v.push(b'x');
+            }
+            continue;
+        }
+        v.extend_from_slice(&ch);
+    }
+    // never end (or start) with NUL
+    while v.last() == Some(&0) {
+        v.pop();
+    }
+    v
+}
+
+fn file_name(rng: &mut Rng, idx: usize) -> Vec<u8> {
+    // distinct per index, up to 63 bytes, no '/', no NUL, never "." or ".."
+    let mut v = format!("{}", idx).into_bytes();
+    let rest = text(rng, 63 - v.len(), b"/\0", false);
+    v.extend_from_slice(&rest);
+    v
+}
+
+fn files_field(rng: &mut Rng, nfiles: usize, max_len: usize) -> String {
+    if nfiles == 0 {
+        return "-".into();
+    }
+    let mut parts = vec![];
+    for i in 0..nfiles {
+        let mut path = vec![];
+        match rng.below(4) {
+            0 => path.extend_from_slice(b"sub/"),
+            1 => path.extend_from_slice(b"a/b.c/"),
+            _ => {}
+        }
+        path.extend_from_slice(&file_name(rng, i));
+        let n = match rng.below(6) {
+            0 => 0,
+            1 => *rng.pick(&boundary_lengths(rng.clone().below(4) as usize)),
+            2 => rng.range(0, 300) as usize,
+            _ => rng.range(0, max_len as u64) as usize,
+        };
+        let c = content(rng, n);
+        parts.push(format!("{}:{}", hex(&path), hex(&c)));
+    }
+    parts.join(";")
+}
+
+fn i32_edge(rng: &mut Rng) -> i32 {
+    match rng.below(8) {
+        0 => 0,
+        1 => 1,
+        2 => -1,
+        3 => i32::MAX,
+        4 => i32::MIN,
+        5 => rng.below(100000) as i32,
+        _ => rng.next() as i32,
+    }
+}
+
+fn entries_field(rng: &mut Rng, n: usize) -> String {
+    if n == 0 {
+        return "-".into();
+    }
+    let mut parts = vec![];
+    for _ in 0..n {
+        let name = {
+            let mut t = text(rng, 64, b"", true);
+            while t.first() == Some(&0) {
+                t.remove(0);
+            }
+            t
+        };
+        let dl = match rng.below(8) {
+            0 => 0,
+            1 => 24,
+            2 => rng.range(0, 24) as usize,
+            _ => 20,
+        };
+        let d = rng.bytes(dl);
+        parts.push(format!("{}:{}:{}", i32_edge(rng), hex(&name), hex(&d)));
+    }
+    parts.join(",")
+}
+
+fn i64_any(rng: &mut Rng) -> i64 {
+    match rng.below(8) {
+        0 => 0,
+        1 => i64::MAX,
+        2 => i64::MIN,
+        3 => -1,
+        4 => rng.below(100_000_000) as i64,
+        _ => rng.next() as i64,
+    }
+}
+
+fn len63(rng: &mut Rng) -> i64 {
+    match rng.below(8) {
+        0 => 0,
+        1 => 1,
+        2 => i64::MAX,
+        3 => rng.below(10) as i64,
+        4 | 5 => rng.below(4_000_000_000) as i64,
+        _ => (rng.next() >> 1) as i64,
+    }
+}
+
+fn hash_str(rng: &mut Rng) -> Vec<u8> {
+    match rng.below(10) {
+        0 => text(rng, 12, b"\t\r\n,", false),
+        1 => vec![],
+        _ => hex(&rng.bytes(20)).into_bytes(),
+    }
+}
+
+fn patchlist_fields(rng: &mut Rng, game: bool, npatches: usize) -> String {
+    let id = match rng.below(4) {
+        0 => b"477D80B1_38BC_41d4_8B48_5273ADB89CAC".to_vec(),
+        1 => b"X-Patch-Length".to_vec(),
+        _ => text(rng, 40, b"\t\r\n", false),
+    };
+    let cl = match rng.below(3) {
+        0 => b"ffxivpatch/4e9a232b/metainfo/2023.07.26.0000.0000.http".to_vec(),
+        _ => text(rng, 60, b"\t\r\n", false),
+    };
+    let rv = text(rng, 20, b"\t\r\n", false);
+    let mut lens: Vec<i64> = (0..npatches).map(|_| len63(rng)).collect();
+    // the total must be an i64 (what X-Patch-Length can carry)
+    while lens.iter().try_fold(0i64, |a, b| a.checked_add(*b)).is_none() {
+        for l in lens.iter_mut() {
+            *l /= 2;
+        }
+    }
+    let mut ps = vec![];
+    for l in lens {
+        let version = match rng.below(3) {
+            0 => b"2023.09.15.0000.0000".to_vec(),
+            _ => text(rng, 24, b"\t\r\n", false),
+        };
+        let url = match rng.below(3) {
+            0 => b"http://patch-dl.ffxiv.com/game/4e9a232b/D2023.09.15.0000.0000.patch".to_vec(),
+            _ => text(rng, 80, b"\t\r\n", false),
+        };
+        let nh = if game {
+            match rng.below(6) {
+                0 => 1,
+                1 => 30,
+                _ => rng.range(1, 5),
+            }
+        } else {
+            // boot rows carry no hashes; whatever the entry holds must not matter
+            if rng.chance(1, 4) { rng.range(1, 3) } else { 0 }
+        };
+        let hashes: Vec<String> = (0..nh).map(|_| hex(&hash_str(rng))).collect();
+        let hs = if hashes.is_empty() { "_".to_string() } else { hashes.join("+") };
+        let (size, hbs) = (i64_any(rng), if game || rng.chance(1, 4) { i64_any(rng) } else { 0 });
+        ps.push(format!(
+            "{},{},{},{},{},{},{},{}",
+            l,
+            size,
+            i32_edge(rng),
+            i32_edge(rng),
+            hbs,
+            hex(&version),
+            hex(&url),
+            hs
+        ));
+    }
+    let declared = match rng.below(3) {
+        0 => 0,
+        1 => rng.next(),
+        _ => rng.below(1 << 40),
+    };
+    format!(
+        "{} {} {} {} {} {}",
+        if game { "game" } else { "boot" },
+        hex(&id),
+        hex(&cl),
+        hex(&rv),
+        declared,
+        if ps.is_empty() { "-".to_string() } else { ps.join(";") }
+    )
+}
+
+/// `sha1 <hex>` cases shared with C12: every length 0..=300, every padding boundary of the
+/// first blocks and of some far block, random lengths
+pub fn sha1_cases(rng: &mut Rng, thorough: bool, out: &mut dyn Write) {
+    for n in 0..=300usize {
+        writeln!(out, "sha1 {}", hex(&rng.bytes(n))).unwrap();
+    }
+    for k in [5usize, 6, 15, 16, 17, 63, 64, 100, 1023, 1024] {
+        for n in boundary_lengths(k) {
+            writeln!(out, "sha1 {}", hex(&content(rng, n))).unwrap();
+        }
+    }
+    let (cnt, max) = if thorough { (200, 1usize << 20) } else { (40, 1usize << 18) };
+    for _ in 0..cnt {
+        let n = match rng.below(4) {
+            0 => rng.range(301, 5000) as usize,
+            1 => (rng.range(5, (max / 64) as u64) as usize) * 64 + *rng.pick(&[0usize, 55, 56, 63, 119 % 64, 120 % 64]),
+            _ => rng.range(301, max as u64) as usize,
+        };
+        writeln!(out, "sha1 {}", hex(&content(rng, n))).unwrap();
+    }
+    // bit length crossing 2^24 (the fourth-lowest trailer byte becomes non-zero at 2 MiB): on every run
+    for n in [(2usize << 20) - 1, 2 << 20, (2 << 20) + 57, 4718592 + 13] {
+        writeln!(out, "sha1 {}", hex(&rng.bytes(n))).unwrap();
+    }
+    if thorough {
+        for n in [(4usize << 20) + 55, (8 << 20) + 56, (3 << 20) + 64] {
+            writeln!(out, "sha1 {}", hex(&content(rng, n))).unwrap();
+        }
+    }
+}
+
+pub fn generate(thorough: bool, seed: u64, out: &mut dyn Write) {
+    let mut rng = Rng::new(seed, "C10");
+    sha1_cases(&mut rng, thorough, out);
+    // file sets through FileInfo::new
+    writeln!(out, "new -").unwrap();
+    writeln!(out, "newwrite -").unwrap();
+    let n = if thorough { 2000 } else { 150 };
+    for i in 0..n {
+        let nf = match rng.below(6) {
+            0 => 1,
+            1 => 2,
+            _ => rng.range(1, 6),
+        } as usize;
+        let f = files_field(&mut rng, nf, if i % 10 == 0 { 20000 } else { 700 });
+        writeln!(out, "{} {}", if i % 3 == 2 { "newwrite" } else { "new" }, f).unwrap();
+    }
+    // tables as values
+    for op in ["write", "parse", "rt"] {
+        writeln!(out, "{} -", op).unwrap();
+    }
+    let n = if thorough { 30_000 } else { 1500 };
+    for i in 0..n {
+        let ne = match rng.below(8) {
+            0 => 1,
+            1 => 2,
+            2 => rng.range(8, 40),
+            _ => rng.range(1, 7),
+        } as usize;
+        let op = ["write", "parse", "rt"][i % 3];
+        writeln!(out, "{} {}", op, entries_field(&mut rng, ne)).unwrap();
+    }
+    // patch lists
+    let n = if thorough { 90_000 } else { 2400 };
+    for i in 0..n {
+        let game = rng.chance(1, 2);
+        let np = match rng.below(8) {
+            0 => 0,
+            1 => 1,
+            2 => rng.range(7, 20),
+            _ => rng.range(1, 6),
+        } as usize;
+        let op = ["plwrite", "plparse", "plrt"][i % 3];
+        writeln!(out, "{} {}", op, patchlist_fields(&mut rng, game, np)).unwrap();
+    }
+}
+
+// ------------------------------------------------------------------------------------------
+// runner
+// ------------------------------------------------------------------------------------------
+
+fn show_entries(es: &[FIINEntry]) -> String {
+    if es.is_empty() {
+        return "-".into();
+    }
+    es.iter()
+        .map(|e| format!("{}:{}:{}", e.file_size, hex(e.file_name.as_bytes()), hex(&e.sha1)))
+        .collect::<Vec<_>>()
+        .join(",")
+}
+
+fn parse_entries(s: &str) -> Option<Vec<FIINEntry>> {
+    if s == "-" {
+        return Some(vec![]);
+    }
+    let mut v = vec![];
+    for e in s.split(',') {
+        let f: Vec<&str> = e.split(':').collect();
+        if f.len() != 3 {
+            return None;
+        }
+        v.push(FIINEntry {
+            file_size: f[0].parse().ok()?,
+            file_name: String::from_utf8(unhex(f[1])?).ok()?,
+            sha1: unhex(f[2])?,
+        });
+    }
+    Some(v)
+}
+
+/// writes the files of a `new` case into a scratch directory and calls `FileInfo::new`
+fn with_files<R>(field: &str, f: impl FnOnce(&[&str]) -> R) -> Option<R> {
+    let dir = TempDir::new("c10");
+    let mut paths: Vec<String> = vec![];
+    if field != "-" {
+        for part in field.split(';') {
+            let (p, c) = part.split_once(':')?;
+            let rel = String::from_utf8(unhex(p)?).ok()?;
+            let content = unhex(c)?;
+            let full = dir.path().join(&rel);
+            if let Some(parent) = full.parent() {
+                std::fs::create_dir_all(parent).ok()?;
+            }
+            std::fs::write(&full, &content).ok()?;
+            paths.push(full.to_str()?.to_string());
+        }
+    }
+    let refs: Vec<&str> = paths.iter().map(|s| s.as_str()).collect();
+    Some(f(&refs))
+}
+
+fn parse_patches(s: &str) -> Option<Vec<PatchEntry>> {
+    if s == "-" {
+        return Some(vec![]);
+    }
+    let mut v = vec![];
+    for p in s.split(';') {
+        let f: Vec<&str> = p.split(',').collect();
+        if f.len() != 8 {
+            return None;
+        }
+        let hashes = if f[7] == "_" {
+            vec![]
+        } else {
+            let mut hs = vec![];
+            for h in f[7].split('+') {
+                hs.push(String::from_utf8(unhex(h)?).ok()?);
+            }
+            hs
+        };
+        v.push(PatchEntry {
+            length: f[0].parse().ok()?,
+            size_on_disk: f[1].parse().ok()?,
+            unknown_a: f[2].parse().ok()?,
+            unknown_b: f[3].parse().ok()?,
+            hash_block_size: f[4].parse().ok()?,
+            version: String::from_utf8(unhex(f[5])?).ok()?,
+            url: String::from_utf8(unhex(f[6])?).ok()?,
+            hashes,
+        });
+    }
+    Some(v)
+}
+
+fn show_patchlist(pl: &PatchList) -> String {
+    let ps: Vec<String> = pl
+        .patches
+        .iter()
+        .map(|p| {
+            let hs = if p.hashes.is_empty() {
+                "_".to_string()
+            } else {
+                p.hashes.iter().map(|h| hex(h.as_bytes())).collect::<Vec<_>>().join("+")
+            };
+            format!(
+                "{},{},{},{},{},{},{},{}",
+                p.length,
+                p.size_on_disk,
+                p.unknown_a,
+                p.unknown_b,
+                p.hash_block_size,
+                hex(p.version.as_bytes()),
+                hex(p.url.as_bytes()),
+                hs
+            )
+        })
+        .collect();
+    format!(
+        "len={} id={} cl={} rv={} p={}",
+        pl.patch_length,
+        hex(pl.id.as_bytes()),
+        hex(pl.content_location.as_bytes()),
+        hex(pl.requested_version.as_bytes()),
+        if ps.is_empty() { "-".to_string() } else { ps.join(";") }
+    )
+}
+
+fn kind(s: &str) -> Option<PatchListType> {
+    match s {
+        "boot" => Some(PatchListType::Boot),
+        "game" => Some(PatchListType::Game),
+        _ => None,
+    }
+}
+
+fn build_pl(f: &[&str]) -> Option<PatchList> {
+    Some(PatchList {
+        id: String::from_utf8(unhex(f[2])?).ok()?,
+        content_location: String::from_utf8(unhex(f[3])?).ok()?,
+        requested_version: String::from_utf8(unhex(f[4])?).ok()?,
+        patch_length: f[5].parse().ok()?,
+        patches: parse_patches(f[6])?,
+    })
+}
+
+/// digest of a byte string through the public API: `FileInfo::new` on one scratch file
+pub fn sha1_via_fileinfo(data: &[u8]) -> String {
+    let dir = TempDir::new("sha1");
+    let p = dir.path().join("f");
+    if std::fs::write(&p, data).is_err() {
+        return "bad-case".into();
+    }
+    let ps = p.to_str().unwrap().to_string();
+    guarded(move || match FileInfo::new(&[ps.as_str()]) {
+        Some(fi) if fi.entries.len() == 1 => hex(&fi.entries[0].sha1),
+        Some(_) => "err".into(),
+        None => "none".into(),
+    })
+}
 
 pub fn run(case: &str, input: &str) -> String {
-    "unimplemented".to_string()
+    let f: Vec<&str> = input.split(' ').collect();
+    let bad = || "bad-case".to_string();
+    match (f[0], f.len()) {
+        ("sha1", 2) => match unhex(f[1]) {
+            Some(d) => sha1_via_fileinfo(&d),
+            None => bad(),
+        },
+        ("new", 2) | ("newwrite", 2) => {
+            let write = f[0] == "newwrite";
+            with_files(f[1], |paths| {
+                let owned: Vec<String> = paths.iter().map(|s| s.to_string()).collect();
+                guarded(move || {
+                    let refs: Vec<&str> = owned.iter().map(|s| s.as_str()).collect();
+                    match FileInfo::new(&refs) {
+                        None => "none".into(),
+                        Some(fi) => {
+                            if write {
+                                match fi.write_to_buffer() {
+                                    Some(b) => hex(&b),
+                                    None => "none".into(),
+                                }
+                            } else {
+                                show_entries(&fi.entries)
+                            }
+                        }
+                    }
+                })
+            })
+            .unwrap_or_else(bad)
+        }
+        ("write", 2) => match parse_entries(f[1]) {
+            Some(entries) => guarded(move || match (FileInfo { entries }).write_to_buffer() {
+                Some(b) => hex(&b),
+                None => "none".into(),
+            }),
+            None => bad(),
+        },
+        ("parse", 2) => match unhex(f[1]) {
+            Some(b) => guarded(move || match FileInfo::from_existing(&b) {
+                Some(fi) => show_entries(&fi.entries),
+                None => "none".into(),
+            }),
+            None => bad(),
+        },
+        ("rt", 2) => match parse_entries(f[1]) {
+            Some(entries) => guarded(move || {
+                let Some(b) = (FileInfo { entries }).write_to_buffer() else { return "none".into() };
+                match FileInfo::from_existing(&b) {
+                    Some(fi) => show_entries(&fi.entries),
+                    None => "none".into(),
+                }
+            }),
+            None => bad(),
+        },
+        ("plwrite", 7) | ("plrt", 7) => {
+            let (Some(k), Some(pl)) = (kind(f[1]), build_pl(&f)) else { return bad() };
+            let rt = f[0] == "plrt";
+            let k2 = kind(f[1]).unwrap();
+            guarded(move || {
+                let text = pl.to_string(k);
+                if rt {
+                    show_patchlist(&PatchList::from_string(k2, &text))
+                } else {
+                    hex(text.as_bytes())
+                }
+            })
+        }
+        ("plparse", 3) => {
+            let (Some(k), Some(b)) = (kind(f[1]), unhex(f[2])) else { return bad() };
+            let Ok(text) = String::from_utf8(b) else { return bad() };
+            guarded(move || show_patchlist(&PatchList::from_string(k, &text)))
+        }
+        _ => bad(),
+    }
 }
 
 pub fn dump(out: &mut dyn Write) {}
